@@ -1465,3 +1465,5 @@ mut("revert_D21", ["C15", "C12"], "ORD-23|logs::LogReader::read_physical_record|
     note="a fragment that fails its checksum is not counted: the reader loses its alignment with the file (defect D21)")
 mut("memfs_rename_keeps_source", ["C02", "C16"], "FS-3|<fs::fs_mem::InMemoryFileSystem as fs::traits::FileSystem>::rename|moves-the-file", patch="memfs_rename_keeps_source.diff",
     note="in-memory rename copies instead of moving: the temp file of the CURRENT switch stays behind")
+mut("block_type_decoder_swaps_middle_and_last", ["C12", "C02"], "ENUM-1|<logs::BlockType as std::convert::TryFrom<u8>>::try_from", patch="block_type_decoder_swaps_middle_and_last.diff",
+    note="records of three or more fragments are reassembled wrongly (two-fragment records are unaffected)")
